@@ -58,6 +58,8 @@ class Region(object):
         self.unknown_write = False
 
     def initial(self, off):
+        if self.kind == 'havoc':
+            return (TOP,) * 8
         if self.kind == 'sym':
             n = self.name
             return tuple(('I', n, off, b) for b in range(8))
@@ -441,9 +443,23 @@ class Machine(object):
             chunk = B.norm(bits[8 * i:8 * i + 8])
             r.mem[p.off + (n - 1 - i if mod.big_endian else i)] = chunk
 
+    def havoc(self, p, what):
+        """a write of unknown extent: everything the region held becomes unknown (the analysis goes on; the verdict
+        is undecided only if those bytes are observed)"""
+        r = self.region_of(p, what)
+        if not r.writable:
+            self.undecided('%s into constant %s' % (what, r.name))
+        r.mem.clear()
+        r.kind = 'havoc'
+        r.unknown_write = True
+        self.w.notes.append(('symbolic-length', what, r.name, self.loc()))
+
     def memcpy(self, dst, src, n):
         if not isinstance(n, int):
-            self.undecided('memcpy with a non-constant length')
+            if isinstance(src, Ptr) and src.region is not None and not isinstance(src.region, tuple) and src.region in self.w.regions:
+                self.w.regions[src.region].unknown_read = True
+            self.havoc(dst, 'memcpy with a non-constant length')
+            return
         if n == 0:
             return
         rs = self.region_of(src, 'memcpy source')
@@ -464,7 +480,8 @@ class Machine(object):
 
     def memset(self, dst, c, n):
         if not isinstance(n, int):
-            self.undecided('memset with a non-constant length')
+            self.havoc(dst, 'memset with a non-constant length')
+            return
         if n == 0:
             return
         rd = self.region_of(dst, 'memset destination')
